@@ -46,8 +46,29 @@ def run(chk, repo):
            "BOOTSTRAP", order == ORDER, ms.node, f"declaration order "
            f"{order}: to_operational walks list(MachineState)")
     gs = repo.func(T + ".get_state")
-    ok = bool(find("self.ec.roundtrip(ECCmd.FPRD, self.position, 304, "
-                   "'H2xH')", gs))
+    tci_ = repo.cls(T)
+
+    def datagrams(fn, *args):
+        """the datagrams a method sends (through whatever wrappers), by
+        abstract execution with a recording roundtrip"""
+        log = []
+
+        def rt(cmd, pos, off, *a, **k):
+            log.append((getattr(cmd, "name", cmd), pos, off, a,
+                        tuple(sorted(k.items()))))
+            return (8, 0)
+        me0 = Obj(tci_, {"position": 7, "ec": Obj(None, {
+            "roundtrip": ("hook", rt)})})
+        try:
+            Evaluator(repo, tci_.module, tci_).call_function(
+                fn, [me0] + list(args), cls=tci_)
+        except (Unknown, Raised):
+            return None
+        return log
+    got_ = datagrams(gs)
+    ok = got_ == [("FPRD", 7, 0x130, ("H2xH",), ())] if got_ is not None \
+        else bool(find("self.ec.roundtrip(ECCmd.FPRD, self.position, 304, "
+                       "'H2xH')", gs))
     chk.ob("R14.1", T + ".get_state", "reads AL status 0x0130 (state word, "
            "status code)", ok, gs, "FPRD 0x130 'H2xH'")
     # the decoding of the AL status word, by abstract execution of
@@ -79,8 +100,15 @@ def run(chk, repo):
     chk.ob("R14.1", T + ".get_state", "state = low nibble, error = bit 4",
            ok, gs, "MachineState(state & 0xf), bool(state & 0x10)")
     ss = repo.func(T + ".set_state")
-    ok = bool(find("self.ec.roundtrip(ECCmd.FPWR, self.position, 288, 'H', "
-                   "state.value)", ss))
+    ok = True
+    for nm_, v_ in CODES.items():
+        got_ = datagrams(ss, mem[nm_]) if nm_ in mem else None
+        if got_ is None:
+            ok = bool(find("self.ec.roundtrip(ECCmd.FPWR, self.position, "
+                           "288, 'H', state.value)", ss))
+            break
+        if got_ != [("FPWR", 7, 0x120, ("H", v_), ())]:
+            ok = False
     chk.ob("R14.1", T + ".set_state", "writes AL control 0x0120", ok, ss,
            "FPWR 0x120 'H' state.value")
     ok_, why_ = walk_exec(chk, repo)
